@@ -102,3 +102,130 @@ func VHarness_C10_SaveSnapshotsErrProp() {
 	}
 	vReach("done")
 }
+
+// vFailStore: the model KV of the C09 harnesses (it holds real records) with a
+// fault injector in front of every IKVStore call.
+type vFailStore struct {
+	*vStore
+	armed  bool
+	failAt int
+	calls  int
+	failed bool
+}
+
+func (k *vFailStore) step() error {
+	if !k.armed {
+		return nil
+	}
+	k.calls++
+	if k.calls == k.failAt {
+		k.failed = true
+		return vInjected
+	}
+	return nil
+}
+func (k *vFailStore) IterateValue(fk []byte, lk []byte, inc bool, op func(key []byte, data []byte) (bool, error)) error {
+	if err := k.step(); err != nil {
+		return err
+	}
+	return k.vStore.IterateValue(fk, lk, inc, op)
+}
+func (k *vFailStore) GetValue(key []byte, op func([]byte) error) error {
+	if err := k.step(); err != nil {
+		return err
+	}
+	return k.vStore.GetValue(key, op)
+}
+func (k *vFailStore) SaveValue(key []byte, value []byte) error {
+	if err := k.step(); err != nil {
+		return err
+	}
+	return k.vStore.SaveValue(key, value)
+}
+func (k *vFailStore) DeleteValue(key []byte) error {
+	if err := k.step(); err != nil {
+		return err
+	}
+	return k.vStore.DeleteValue(key)
+}
+func (k *vFailStore) CommitWriteBatch(wb kv.IWriteBatch) error {
+	if err := k.step(); err != nil {
+		return err
+	}
+	return k.vStore.CommitWriteBatch(wb)
+}
+func (k *vFailStore) BulkRemoveEntries(firstKey []byte, lastKey []byte) error {
+	if err := k.step(); err != nil {
+		return err
+	}
+	return k.vStore.BulkRemoveEntries(firstKey, lastKey)
+}
+func (k *vFailStore) CompactEntries(firstKey []byte, lastKey []byte) error { return k.step() }
+func (k *vFailStore) FullCompaction() error                                { return k.step() }
+
+// C10 (sharded store, every mutating operation): a replica with saved state,
+// entries and a snapshot record; the store is reopened (cold caches) or not;
+// then one operation - save, snapshot save, entry removal, node-data removal,
+// snapshot import, bootstrap record - during which the KV store fails call
+// number k.  The operation reports the failure (error or panic); it never
+// returns success.
+//vcheck: reach=injected,not-reached,save,snapshots,remove-entries,remove-node,import,bootstrap,cold,warm,done workers=16 allow="injected kv error"
+func VHarness_C10_EveryOperationErrProp() {
+	batched := vBool("batched")
+	batchSize = 4
+	fs := &vFailStore{vStore: &vStore{}}
+	d := vOpenDB(fs, batched)
+	ctx := newContext(1024, 1024*1024)
+	es, _ := vEntries(1, 6, 1)
+	vAssert(d.saveRaftState([]pb.Update{{ShardID: 1, ReplicaID: 1, State: pb.State{Term: 1, Vote: 1, Commit: 3}, EntriesToSave: es}}, ctx) == nil, "setup-save-ok")
+	ctx.Reset()
+	vAssert(d.saveSnapshots([]pb.Update{{ShardID: 1, ReplicaID: 1, Snapshot: pb.Snapshot{Index: 3, Term: 1}}}) == nil, "setup-snapshot-ok")
+	if vBool("reopened") {
+		d = vOpenDB(fs, batched)
+		vReach("cold")
+	} else {
+		vReach("warm")
+	}
+	fs.failAt = 1 + vChoose("failAtCall", 6)
+	fs.armed = true
+	var err error
+	func() {
+		defer func() {
+			if r := recover(); r != nil {
+				err = vInjected // a panic counts as failing
+			}
+		}()
+		switch vChoose("operation", 6) {
+		case 0:
+			vReach("save")
+			more, _ := vEntries(7, 2, 1)
+			err = d.saveRaftState([]pb.Update{{ShardID: 1, ReplicaID: 1, State: pb.State{Term: 2, Vote: 2, Commit: 4}, EntriesToSave: more}}, ctx)
+		case 1:
+			vReach("snapshots")
+			err = d.saveSnapshots([]pb.Update{{ShardID: 1, ReplicaID: 1, Snapshot: pb.Snapshot{Index: 5, Term: 1}}})
+		case 2:
+			vReach("remove-entries")
+			err = d.removeEntriesTo(1, 1, 3)
+		case 3:
+			vReach("remove-node")
+			err = d.removeNodeData(1, 1)
+		case 4:
+			vReach("import")
+			ss := pb.Snapshot{Index: 9, Term: 2, Imported: true, Type: pb.RegularStateMachine}
+			ss.Membership.Addresses = map[uint64]string{1: "a1"}
+			err = d.importSnapshot(ss, 1)
+		case 5:
+			vReach("bootstrap")
+			err = d.saveBootstrapInfo(1, 1, pb.Bootstrap{Join: true})
+		}
+	}()
+	fs.armed = false
+	if fs.failed {
+		vReach("injected")
+		vAssert(err != nil, "storage-error-during-the-operation-is-reported")
+	} else {
+		vReach("not-reached")
+		vAssert(err == nil, "operation-ok-without-a-fault")
+	}
+	vReach("done")
+}
